@@ -812,6 +812,12 @@ func cmdReplay(args []string) int {
 // cmdPrebuild builds every worker of every check once so that the build cache is warm.
 func cmdPrebuild() int {
 	ents, _ := os.ReadDir(filepath.Join(verifDir, "harness"))
+	claimed := map[string]bool{}
+	if b, err := os.ReadFile(filepath.Join(verifDir, "tools", "claimed.txt")); err == nil {
+		for _, f := range strings.Fields(string(b)) {
+			claimed[strings.ToLower(f)] = true
+		}
+	}
 	rc := 0
 	sem := make(chan struct{}, 4)
 	var wg sync.WaitGroup
@@ -819,6 +825,9 @@ func cmdPrebuild() int {
 	for _, e := range ents {
 		if _, err := os.Stat(filepath.Join(verifDir, "harness", e.Name(), "check.json")); err != nil {
 			continue
+		}
+		if len(claimed) > 0 && !claimed[e.Name()] {
+			continue // not registered in MANIFEST.json (work in progress)
 		}
 		c := loadCheck(strings.ToUpper(e.Name()))
 		work := filepath.Join(verifDir, ".work", c.Property)
